@@ -70,6 +70,14 @@ def body(chk):
     step = max(1, len(cases) // len(rej))
     for j, v in enumerate(rej):
         cases.insert(j * (step + 1), v)
+    # the descriptor's COUNT of text records (the reader finds the one text record structurally, behind the pointer records): a file that
+    # states 0 / 2 / 3 / nothing there may be refused as inconsistent -- but if it is opened, the text record's fields are the root attributes
+    fcount = ("VOL", "volume_descriptor", 0, "number_of_text_records_in_volume_directory")
+    for j in range(3):   # FileFormat!Informational alternatives (2, 3, 0 text records declared; other record sequence numbers)
+        for nfp in (3, 5, 12):
+            cases.append(dict(level="1.5", seed=chk.seed + 820 + j, k=j, nfp=nfp, files=("VOL",), images=(("HH", None, 1, 1),), fs="local", informational=j, stamp=f"informational-{j}"))
+    for nfp in (3, 5):   # ... and the count left blank: refusing that file is fine, opening it with other root attributes is not
+        cases.append(dict(level="1.5", seed=chk.seed + 830, k=1, nfp=nfp, files=("VOL",), images=(("HH", None, 1, 1),), fs="local", may_reject="or-right", blank=[fcount], stamp="text-count-blank"))
     results, total = lc.replay(chk, cases, "volume", lambda c: f"plan={c['k']}{'r' if c.get('random_classes') else ''}:nfp={c.get('nfp')}" + (f":stamp={c['stamp'][12:]}" if c.get("stamp") else ""))
     ok = next(r for r in results if r["open"] == "ok" and not r["case"].get("may_reject"))
     chk.sample({"plan": ok["case"]["k"], "file_pointer_records": ok["case"].get("nfp"), "attributes_compared": ok["n"]})
